@@ -14,7 +14,8 @@ VIOLATES_FN = "violates"
 RULE = ("case = history of 1-4 blocks of 1-6 txs on fresh accounts, through BeginBlock/DeliverTx/EndBlock/Commit; a tx is a "
         "Cosmos tx carrying 0-3 MsgEthereumTx (legacy/access-list/dynamic-fee; nonce exact/gap/stale/repeated; chain id "
         "ok/wrong/absent; signature ok/zero r/zero s/high s/flipped v/v=29; transfer, call, reverting call, create, reverting "
-        "create, out-of-gas create, gas below intrinsic, value-draining transfer / endowed create / endowed call that a later message "
+        "create, out-of-gas create, gas below intrinsic, contract doing a surviving precompile call followed by one in a swallowed "
+        "reverting frame, value-draining transfer / endowed create / endowed call that a later message "
         "of the same tx can no longer afford; or the byte-identical resubmission of an earlier message; a closing block resubmits "
         "every delivered message, optionally after re-funding) or a "
         "Cosmos-signed MsgSend with explicit sequence by the secp256k1 / eth_secp256k1 form of the same key; "
